@@ -20,6 +20,7 @@ def run(chk):
              "length argument (paths, rect, delta, arc_tolerance), S^0 at every return")
     chk.rule("SCALE.ClipperD", "ClipperD: scale_ from pow(10, precision), invScale_ = 1/scale_, inputs * scale_, outputs * invScale_, "
              "PolyTreeD carries invScale_")
+    chk.rule("SCALE.ClipperD-table", "for every valid precision the constructor's formula yields the smallest power of two above 10^precision")
     chk.rule("ROUND", "double -> int64 coordinate conversion happens only in Point<int64_t>::Init<double> and ScaleRect<int64_t,double>, "
              "through std::round")
     chk.rule("SIBLING.64-D", "BuildPathD/BuildPathsD/BuildTreeD and ClipperD::Execute are their 64-bit siblings modulo type renames and de-scaling")
@@ -27,6 +28,7 @@ def run(chk):
         db = AstDB(cfg)
         e8.rule_wrappers(db, chk, cfg)
         e8.rule_clipperd(db, chk, cfg)
+        e8.rule_clipperd_scale_table(db, chk, cfg)
         e8.rule_rounding(db, chk, cfg)
         try:
             from ..engines import e6_siblings as e6
@@ -37,6 +39,7 @@ def run(chk):
     n = len(cfgs)
     chk.floor("SCALE.wrapper", 10 * n)
     chk.floor("SCALE.ClipperD", 9 * n)
+    chk.floor("SCALE.ClipperD-table", 17 * n)
     chk.floor("ROUND", 6 * n)
     chk.explanation = (
         "A unit system with one base unit S (the scale factor) is inferred for every local of every PathsD wrapper and export: "
